@@ -272,8 +272,23 @@ def check(ctx, as_premise=False):
         ctx.ob("S5", "encodeString prefix counts the UTF-8 bytes", True, where="src/mqtt/pdu.py", construct="mqtt.pdu.encodeString/prefix")
     if not [p for p in probs if p.rule == "S7"]:
         ctx.ob("S7", "over-long strings raise a ValueError subclass (limit 65535)", True, where="src/mqtt/pdu.py", construct="mqtt.pdu.encodeString/overlong-guard")
+    CLIENT_BOUND = ("CONNACK", "SUBACK", "UNSUBACK", "PUBLISH", "PUBACK", "PUBREC", "PUBREL", "PUBCOMP", "PINGRESP")
+    from .c01 import header_skip
     for name, c in pdu_classes(prog).items():
         problems, stats, encm, decm = compare_class(prog, c)
+        if name in CLIENT_BOUND:
+            # the decoders of what a broker sends: the fixed header skipped the way decodeLength reads it, every field read where the
+            # (spec-checked) encoder of the same class puts it
+            appl, okh, ln, msgh = header_skip(decm, facts)
+            if appl:
+                ctx.ob("S9", "%s.decode skips the fixed header with decodeLength's continuation bit" % name, okh,
+                       where="src/mqtt/pdu.py:%d" % (ln or c.node.lineno), function="mqtt.pdu.%s.decode" % name,
+                       construct="mqtt.pdu.%s/header-skip" % name, msg=msgh)
+            for p in problems:
+                if p.rule in ("L2", "L3", "L4"):
+                    ctx.ob("S9", "%s %s" % (name, p.what), False, where=loc(p.node, "src/mqtt/pdu.py:%d" % c.node.lineno),
+                           function="mqtt.pdu.%s.decode" % name, construct="mqtt.pdu.%s/decode/%s" % (name, p.what),
+                           msg="the decoder of a packet the broker sends does not read a field where the prescribed layout has it: " + p.msg)
         for p in problems:
             if p.rule == "L5":
                 ctx.ob("S5", "%s %s" % (name, p.what), False, where=loc(p.node, "src/mqtt/pdu.py:%d" % c.node.lineno), function="mqtt.pdu.%s.encode" % name,
